@@ -1,6 +1,7 @@
 package main
 
 import (
+	"time"
 	"runtime"
 	"sync"
 	"fmt"
@@ -15,6 +16,28 @@ import (
 func init() { streams["envapi"] = streamEnvAPI }
 
 type extLookup struct{}
+
+// lazyLookup is an external lookup that binds what it loads in the scope it serves (a lazy loader): it re-enters the scope
+// from inside the scope's own lookup
+type lazyLookup struct{ e *env.Env }
+
+func (l lazyLookup) Get(name string) (reflect.Value, error) {
+	if name != "answer" {
+		return reflect.Value{}, fmt.Errorf("not found")
+	}
+	v := reflect.New(reflect.TypeOf(int64(0))).Elem()
+	v.SetInt(42)
+	_ = l.e.DefineValue(name, v)
+	return v, nil
+}
+
+func (l lazyLookup) Type(name string) (reflect.Type, error) {
+	if name != "Answer" {
+		return nil, fmt.Errorf("not found")
+	}
+	_ = l.e.DefineReflectType(name, reflect.TypeOf(int64(0)))
+	return reflect.TypeOf(int64(0)), nil
+}
 
 func (extLookup) Get(name string) (reflect.Value, error) {
 	switch name {
@@ -525,6 +548,41 @@ func streamEnvAPI(o *Out, r *rand.Rand, n int, thorough bool) {
 			}
 			return nil
 		}},
+		{"an external lookup that defines what it loads in the scope it serves: Get, Type, Addr through it", func(e *env.Env) interface{} {
+			done := make(chan string, 1)
+			go func() {
+				e.SetExternalLookup(lazyLookup{e})
+				if v, err := e.Get("answer"); err != nil || v != int64(42) {
+					done <- fmt.Sprint("Get: ", v, err)
+					return
+				}
+				if _, err := e.Type("Answer"); err != nil {
+					done <- fmt.Sprint("Type: ", err)
+					return
+				}
+				e.Delete("answer")
+				if _, err := e.Addr("answer"); err != nil {
+					done <- fmt.Sprint("Addr: ", err)
+					return
+				}
+				child := e.NewEnv()
+				e.Delete("answer")
+				if _, err := child.Addr("answer"); err != nil {
+					done <- fmt.Sprint("Addr from a child scope: ", err)
+					return
+				}
+				done <- ""
+			}()
+			select {
+			case msg := <-done:
+				if msg != "" {
+					return "lazy: " + msg
+				}
+			case <-time.After(3 * time.Second):
+				return "lazy: the lookup never returned (the scope's lock was held while the external lookup ran)"
+			}
+			return nil
+		}},
 		{"NewModule(m); Define(a, 1) in it; GetEnvFromPath([m a])", func(e *env.Env) interface{} { m, _ := e.NewModule("m"); _ = m.Define("a", 1); _, err := e.GetEnvFromPath([]string{"m", "a"}); return err }},
 		{"DefineType(T, nil); Type(T); GetTypeSymbols; String", func(e *env.Env) interface{} { _ = e.DefineType("T", nil); _, _ = e.Type("T"); e.GetTypeSymbols(); return e.String() }},
 		{"DefineReflectType(T, nil); Type(T)", func(e *env.Env) interface{} { _ = e.DefineReflectType("T", nil); t, err := e.Type("T"); return fmt.Sprint(t, err) }},
@@ -548,10 +606,17 @@ func streamEnvAPI(o *Out, r *rand.Rand, n int, thorough bool) {
 			}()
 			o.Sum.Evaluations++
 			o.Sum.Hist["host-request"]++
+			lazyHung := false
 			if r := c.run(e); r == "nil scope without an error" {
 				o.Fail(Failure{Oracle: "invalid-request-is-an-error", Key: "env-nil-scope", Input: c.name, Detail: "GetEnvFromPath returned (nil, nil)"})
+			} else if s, ok := r.(string); ok && strings.HasPrefix(s, "lazy: ") {
+				lazyHung = true
+				o.Fail(Failure{Oracle: "env-never-blocks", Key: "env-reentrant-lookup", Input: c.name, Detail: s})
 			} else if r == "copy shares the struct" || r == "copy lost the binding" {
 				o.Fail(Failure{Oracle: "copy-is-independent", Key: "env-copy-shares-struct", Input: c.name, Detail: fmt.Sprint(r, ": a store into the struct value bound in the copy shows in the original scope")})
+			}
+			if lazyHung {
+				return // the scope's lock is wedged: any further call on it would block this goroutine too
 			}
 			// the scope is still usable
 			if err := e.Define("after", int64(1)); err != nil {
